@@ -2,10 +2,12 @@
 # seedtest.sh <seed-dir> [--tests] [--tier quick|thorough] : applies seeded/<id>-mN/patch.diff to a scratch worktree of /repo HEAD,
 # confirms the demonstration (fails with, passes without), optionally the test suite, then runs ./check <Cxx>
 # (or the properties given in $PROPS) against the mutated tree through SPECTRUM_REPO.  Nothing touches /repo itself.
+VH=$(cd "$(dirname "$0")/.." && pwd)
 d=$(cd "$1" && pwd); shift
 tests=0; tier=quick
 while [ $# -gt 0 ]; do case $1 in --tests) tests=1;; --tier) tier=$2; shift;; esac; shift; done
 pid=$(basename $d | cut -d- -f1)
+case $pid in revert) pid=$(python3 -c "import json,sys;print(' '.join(json.load(open(sys.argv[1]))['properties']))" $d/meta.json);; esac
 props=${PROPS:-$pid}
 wt=$(mktemp -d /tmp/seedwt.XXXXXX); rmdir $wt
 git -C /repo worktree add -q --detach $wt HEAD || exit 2
@@ -18,5 +20,5 @@ if [ -f $d/demo.py ]; then
 fi
 if [ $tests = 1 ]; then ( cd $wt && PYTHONPATH=$wt/src /venv/bin/python -m pytest -q -p no:cacheprovider test 2>&1 | tail -1 ); fi
 for p in $props; do
-  ( cd /verif && SPECTRUM_REPO=$wt ./check $p --tier $tier > $wt/check.log 2>&1; echo "check $p exit $?"; grep -v "^Traceback\|^  File\|^    " $wt/check.log | tail -3 )
+  ( cd $VH && SPECTRUM_REPO=$wt ./check $p --tier $tier > $wt/check.log 2>&1; echo "check $p exit $?"; grep -v "^Traceback\|^  File\|^    " $wt/check.log | tail -3 )
 done
